@@ -109,8 +109,9 @@ PROPS = {
         unreached=["FormattedEntryIoStream::next (Format trait not modelled)", "EntryWriter::finish: one vectored write sequence per emitted line"],
     ),
     "C12": dict(
+        verus=[("emf_sample", {})],
         kani=["writer_sample", "emf_num", "writer_congress"],
-        technique="Kani proof harnesses (loop-free, full-domain symbolic inputs) on the real FixedFractionSample::format, rate_to_n_alpha, rate_to_n, ExpMovingAverage::add_sample, GroupState::update_and_retain",
+        technique="Verus contract on the real SampledEmf::format_with_sample_rate + Kani proof harnesses (loop-free, full-domain symbolic inputs) on the real FixedFractionSample::format, rate_to_n_alpha, rate_to_n, ExpMovingAverage::add_sample, GroupState::update_and_retain",
         level_text="Kani/CBMC proof for every representable f32 rate in (0,1] and every random draw that the fixed-fraction sampler forwards exactly when draw <= rate, once, with that rate; that the EMF weight is "
                    "floor(1/rate) or floor(1/rate)+1, chosen as n iff draw < alpha with alpha = (n+1) - 1/rate exactly (so its expectation is 1/rate), saturating at u64::MAX below 2^-63 (partitioned by binade: quick tier 5 binades + small rates, thorough all 52); "
                    "and single-step contracts for the congressional sampler's per-group state. The congress budget / monotonicity invariants of update_rates (ahash map) are NOT decided.",
